@@ -77,6 +77,12 @@ def make_items(cx, spec, nprog, nenv, streams=('corpus', 'fragment', 'shapes')):
     if 'straight' in streams:
         for i in range(nprog * 3):
             items.append({'name': f'straight/{cx.seed}/{i}', 'src': gen.straightline(cx.seed, i), 'nenv': 0, 'seed': cx.seed, 'stream': 'straight'})
+    if 'twofield' in streams:
+        rng = random.Random(f"twofield/{cx.seed}")
+        idxs = list(range(gen.N_TWOFIELD)); rng.shuffle(idxs)
+        for i in idxs[:(32 if cx.quick() else gen.N_TWOFIELD)]:
+            src, tags = gen.twofield(cx.seed, i)
+            items.append({'name': f'twofield/{cx.seed}/{i}', 'src': src, 'nenv': nenv, 'seed': cx.seed, 'stream': 'twofield', 'tags': tags})
     if 'layout' in streams:
         for i in range(nprog):
             items.append({'name': f'layout/{cx.seed}/{i}', 'src': gen.layout(cx.seed, i), 'nenv': nenv // 3, 'seed': cx.seed, 'stream': 'layout'})
@@ -166,7 +172,7 @@ def semantic_check(pid):
         if replay is not None:
             return do_replay(cx, pid, spec, replay)
         nprog, nenv = volumes(cx, 90, 100)
-        streams = ('corpus', 'fragment', 'shapes', 'direct', 'callfam') + (('layout',) if pid in ('C04', 'C05') else ()) + (('straight',) if pid == 'C11' else ())
+        streams = ('corpus', 'fragment', 'shapes', 'direct', 'callfam') + (('twofield',) if pid in ('C01', 'C03', 'C07', 'C08') else ()) + (('layout',) if pid in ('C04', 'C05') else ()) + (('straight',) if pid == 'C11' else ())
         items = make_items(cx, spec, nprog, nenv, streams)
         results = engine.run_items(items)
         src_of = {it['name']: it['src'] for it in items}
